@@ -1,7 +1,7 @@
 """C05 -- proximal operators return the exact minimiser of their penalised problem."""
 from contracts.prox import partitions
 
-META = dict(level="proof", trusted_base=["z3 5.1", "own normal-form prover", "NumPy object-array semantics (sort, cumsum, take_along_axis, linalg.norm)"])
+META = dict(level="proof", trusted_base=["z3 5.1", "Lean 4.33 kernel + Mathlib (lemmas L4, L5)", "own normal-form prover", "NumPy object-array semantics (sort, cumsum, take_along_axis, linalg.norm)"])
 
 
 def tasks(tier, seed):
@@ -39,10 +39,14 @@ def tasks(tier, seed):
 
 
 def extra(led, tier, seed):
-    from contracts import prox_native
+    from contracts import prox_native, lean_bounds, prox
     led.extend(prox_native.zero_case())
+    # lemmas L4 / L5, machine-checked for every dimension (Lean 4 + Mathlib), and their link to the discharged clauses
+    led.extend(lean_bounds.obligations(tier, file="Prox.lean", lemmas=prox.LEAN_LEMMAS, fn="specs.prox"))
+    led.extend(prox.lemma_links(led.obs))
     led.assume("A1", "A2", "A3", "A4", "A8",
-               "L4: the group-lasso closed form is the unique minimiser of 0.5||z-w||^2 + alpha||z|| (strict convexity + sub-gradient optimality; stated, not machine-checked)",
-               "L5: a feasible point of the hierarchical problem with the stated multipliers is a global minimiser (convex objective over a product of second-order cones; stated, not machine-checked)",
+               "L4 / L5 are no longer assumed: lean/Prox.lean proves, for every dimension, that the closed form is the unique minimiser (gl_unique_min) and that "
+               "the certificate discharged on mlp_prox_grad implies feasibility and minimality over all feasible pairs (hier_certificate_min); trusted: Lean 4 kernel + Mathlib, "
+               "and the reading of NumPy's norm / abs as the Euclidean norm / absolute value of the Lean statement",
                "the in-scope zero case v = 0, u = 0, alpha > 0 is reached through IEEE arithmetic (alpha/0 = inf, max(-inf,0) = 0): checked natively (B), outside real-arithmetic contracts")
     led.notes.append("P@S: all real W/v/u, alpha > 0 (and == 0), M > 0 (and == 0) at each shape; every sign pattern, ordering of |u| and break-point index explored")
